@@ -108,7 +108,7 @@ impl LogInnerManager {
         pre_term: u64,
         split_off_index: u64,
     ) -> anyhow::Result<LogInnerManager> {
-        let index_file = OpenOptions::new()
+        let mut index_file = OpenOptions::new()
             .read(true)
             .write(true)
             .create(true)
@@ -169,6 +169,33 @@ impl LogInnerManager {
         };
         let (data_cursor, msg_count) =
             Self::move_to_end(&mut data_file, indexs.last().unwrap(), start_index).await?;
+        // A kill between the write of a record and the write of its index entry, or in the middle
+        // of a truncation, leaves complete index intervals without an entry. Later entries would
+        // then span more records than readers assume: rebuild the missing ones.
+        let mut indexs = indexs;
+        let mut index_cursor = index_cursor;
+        let interval = header.index_interval as u64;
+        while interval > 0 && index_cursor + 10 < header.data_area_index as u64 {
+            let last = indexs.last().unwrap().clone();
+            if start_index + msg_count - last.log_index < interval {
+                break;
+            }
+            let mut file_reader =
+                FileMessageReader::new(data_file.try_clone().await?, last.file_index);
+            file_reader.seek_start(last.file_index).await?;
+            let position = file_reader
+                .read_index_position((interval - 1) as usize)
+                .await?;
+            let next = InnerIdxDto {
+                log_index: last.log_index + interval,
+                file_index: position.get_end_position(),
+            };
+            let index_data = write_varint64(next.file_index - last.file_index);
+            index_file.seek(SeekFrom::Start(index_cursor)).await?;
+            index_file.write_all(&index_data).await?;
+            index_cursor += index_data.len() as u64;
+            indexs.push(next);
+        }
         data_file.seek(SeekFrom::Start(data_cursor)).await?;
         log::info!(
             "data_cursor:{},{},{}|index:{},{},{}|pre_term:{}",
